@@ -39,6 +39,16 @@ func c08Jobs(c *vk.Ctx) []Job {
 			}
 		}
 	}
+	// two sessions on ONE merge handler using the same subscription id at the same time: the merge
+	// state of a subscription belongs to its session (delay-bounded: two sessions are ~25 tasks)
+	b2 := vk.Pick(c, 2, 3)
+	for _, ms := range [][2]int{{0, 0}, {0, 1}, {1, 0}, {2, 5}, {5, 5}, {1, 1}, {0, 6}} {
+		for _, s := range []int{0, 1} {
+			for _, f := range []int{0, 1} {
+				jobs = append(jobs, Job{Harness: "MergeReqTwoSessions", Bound: b2, Delay: true, Params: map[string]int{"m0": ms[0], "m1": ms[1], "script": s, "filt": f}})
+			}
+		}
+	}
 	return jobs
 }
 
@@ -48,7 +58,7 @@ func c08Merge(c *vk.Ctx) {
 		return
 	}
 	jobs := c08Jobs(c)
-	c.P.Rule = "E1: every schedule of one merge session over n scripted REQ children (menu: stored+EOSE, EOSE+live, unsorted, non-matching, duplicate-of-sibling, EOSE-only, late-EOSE) for every pair of child modes x 5 client scripts ([REQ s], [REQ s, CLOSE s], [REQ s, after EOSE: REQ s], [REQ s, REQ t], [REQ s, CLOSE s, REQ t]) x filter sets (no limit, limit 1, limit 2, two filters); n=2 unbounded (complete up to happens-before state caching) within a per-job time budget, else complete up to a delay bound (deviations from the deterministic default scheduler); n=3 delay-bounded; a job = (modes, script, filters); distinct_outcomes = distinct client-visible streams"
+	c.P.Rule = "E1: every schedule of one merge session over n scripted REQ children (menu: stored+EOSE, EOSE+live, unsorted, non-matching, duplicate-of-sibling, EOSE-only, late-EOSE) for every pair of child modes x 5 client scripts ([REQ s], [REQ s, CLOSE s], [REQ s, after EOSE: REQ s], [REQ s, REQ t], [REQ s, CLOSE s, REQ t]) x filter sets (no limit, limit 1, limit 2, two filters); n=2 unbounded (complete up to happens-before state caching) within a per-job time budget, else complete up to a delay bound (deviations from the deterministic default scheduler); n=3 delay-bounded; two sessions on one merge handler, both using id s at once (7 mode pairs x 2 scripts x 2 filter sets, delay-bounded), each judged by the single-session oracle; a job = (modes, script, filters); distinct_outcomes = distinct client-visible streams"
 	res := runJobs(c, jobs)
 	for i, r := range res {
 		if i%131 == 0 {
